@@ -359,7 +359,7 @@ func (r *Run) jobMain(j *JobRec) int {
 	}
 	md.UpdateJournal(core.LogFile)
 	j.check()
-	if j.Monitor && !stale {
+	if j.Monitor && !stale && fault != "hang" {
 		r.startHeartbeat(j, md)
 	}
 
@@ -519,6 +519,14 @@ func (r *Run) jobMain(j *JobRec) int {
 				j.check()
 			}
 			r.Faults["stale-attempt-returned:"+fault]++
+			if fault == "stale-lingers" {
+				// back to work, heartbeats and all, for three more hours
+				r.startHeartbeat(j, md)
+				for i := 0; i < 90; i++ {
+					vrt.Sleep(2 * time.Minute)
+					j.check()
+				}
+			}
 			cp := *r.FCfg
 			cp.Salt += "|stale"
 			fc = &cp
@@ -526,6 +534,18 @@ func (r *Run) jobMain(j *JobRec) int {
 		}
 	}
 
+	if fault == "hang" {
+		// the job hangs without a sign of life (no heartbeat, no error) for five hours,
+		// then its process exits without a word
+		r.Faults["job-hangs-silently"]++
+		for i := 0; i < 150; i++ {
+			vrt.Sleep(2 * time.Minute)
+			j.check()
+		}
+		j.Outcome = "failed:hung"
+		j.EndSeq = vos.NextSeq()
+		return 3
+	}
 	if fault == "" && r.Cfg.AllSlow {
 		fault = "slow"
 	}
@@ -720,6 +740,63 @@ func (r *Run) writeOuts(j *JobRec, md *core.Metadata, outs map[string]interface{
 				continue
 			}
 			m[f.Name] = outs[f.Name]
+		}
+		out, _ = json.Marshal(m)
+	case "misspelt-member":
+		// a struct value (possibly inside an array or a typed map) with one member's
+		// name misspelt: a declared member is missing, an undeclared one is there
+		m := map[string]interface{}{}
+		for k, v := range outs {
+			m[k] = v
+		}
+		done := false
+		for _, f := range decl {
+			if done || r.Prog.Struct(f.T.Base) == nil || m[f.Name] == nil {
+				continue
+			}
+			// descend through the collection dimensions to the first struct value
+			var walk func(v interface{}, dims string) interface{}
+			walk = func(v interface{}, dims string) interface{} {
+				if v == nil || done {
+					return v
+				}
+				if dims == "" {
+					sv, ok := v.(map[string]interface{})
+					if !ok || len(sv) == 0 {
+						return v
+					}
+					o := map[string]interface{}{}
+					first := sortedKeys(sv)[0]
+					for k, e := range sv {
+						if k == first {
+							o["zz_"+k] = e
+						} else {
+							o[k] = e
+						}
+					}
+					done = true
+					return o
+				}
+				switch x := v.(type) {
+				case []interface{}:
+					o := make([]interface{}, len(x))
+					for i := range x {
+						o[i] = walk(x[i], dims[1:])
+					}
+					return o
+				case map[string]interface{}:
+					o := map[string]interface{}{}
+					for _, k := range sortedKeys(x) {
+						o[k] = walk(x[k], dims[1:])
+					}
+					return o
+				}
+				return v
+			}
+			m[f.Name] = walk(m[f.Name], f.T.Dims)
+		}
+		if !done {
+			j.Fault = "void" // nothing to misspell in these outputs: an ordinary job
 		}
 		out, _ = json.Marshal(m)
 	case "wrong-type":
